@@ -83,12 +83,20 @@ Theorem C05_drag_path_is_source : forall s x y step,
 Proof. exact mouseDrag_is_source. Qed.
 Print Assumptions C05_drag_path_is_source.
 
-(** The button and position bookkeeping of the model is the source's own ([Gen/Exprs.v]): the new attribute values and the
-    three arguments of the one pointerEvent call of mouseMove / mouseDown / mouseUp; `1 << (button - 1)` with button < 1
-    is Python's ValueError. *)
+(** The button and position bookkeeping of the model is the source's own ([Gen/Exprs.v]): the three arguments of the one
+    pointerEvent call of mouseMove / mouseDown / mouseUp and the new attribute values - assigned after the event has been
+    written (fix: a move or press that cannot be sent is not remembered); `1 << (button - 1)` with button < 1 is
+    Python's ValueError. *)
 Theorem C05_pointer_ops_are_source : forall s x y b,
-  mouseMove s x y = apply_ptr (gen_mouseMove (px s) (py s) (pbuttons s) x y) /\
-  mouseDown s b = (if gen_mouseDown_defined (px s) (py s) (pbuttons s) b then apply_ptr (gen_mouseDown (px s) (py s) (pbuttons s) b) else (s, None)) /\
-  mouseUp s b = (if gen_mouseUp_defined (px s) (py s) (pbuttons s) b then apply_ptr (gen_mouseUp (px s) (py s) (pbuttons s) b) else (s, None)).
+  mouseMove s x y = apply_ptr s (gen_mouseMove (px s) (py s) (pbuttons s) x y) /\
+  mouseDown s b = (if gen_mouseDown_defined (px s) (py s) (pbuttons s) b then apply_ptr s (gen_mouseDown (px s) (py s) (pbuttons s) b) else (s, None)) /\
+  mouseUp s b = (if gen_mouseUp_defined (px s) (py s) (pbuttons s) b then apply_ptr_eager (gen_mouseUp (px s) (py s) (pbuttons s) b) else (s, None)).
 Proof. exact pointer_ops_are_source. Qed.
 Print Assumptions C05_pointer_ops_are_source.
+
+(** A move or a press that raises - a coordinate or a mask that does not fit the message - leaves the remembered position
+    and buttons as they were: it cannot change what later operations send. *)
+Theorem C05_failed_op_keeps_state : forall s x y b s',
+  (mouseMove s x y = (s', None) -> s' = s) /\ (mouseDown s b = (s', None) -> s' = s).
+Proof. exact failed_pointer_op_keeps_state. Qed.
+Print Assumptions C05_failed_op_keeps_state.
